@@ -161,7 +161,7 @@ def main(tier, seed):
     for ymdhms in ((2024, 12, 30, 12, 0, 0), (2027, 1, 1, 0, 0, 1), (2024, 2, 29, 23, 59, 55), (2025, 12, 31, 23, 59, 45), (1999, 12, 31, 23, 59, 55)):
         plans.append(dict(max_cmds=2, max_edits=0, t0=calendar.timegm(ymdhms + (0, 0, 0))))
     # ... nor on how the root folder is spelled on the command line: '.', 'dir/.', 'dir/', './dir'
-    for sp in ("dot", "slashdot", "symlink") + (("slash", "rel") if tier != "quick" else ()):
+    for sp in ("dot", "slashdot", "symlink", "dotdot", "slashslash") + (("slash", "rel") if tier != "quick" else ()):
         plans.append(dict(max_cmds=2 if tier == "quick" else 3, max_edits=0, spell=sp))
     for pl in plans:
         meta = dict(alpha="c06", oracles=["c06"], cmds=0, edits=0, **pl)
